@@ -36,6 +36,8 @@ def s_dd(m, V):
     uniform grid (1 when there is no direction axis or a single direction)"""
     if not V.has_dir:
         return 1.0
+    if getattr(V, "dd_name", None) is not None:
+        return V.dd_name  # c.define()d stand-in for the expression below (lemma contracts)
     def two():
         d = m.mod(m.abs(V.th(1) - V.th(0)), 360)
         return ite(m, d <= 360 - d, d, lambda: 360 - d)
